@@ -58,7 +58,12 @@ def showSig : Sig → String
 def obsOf (d : DState) : String :=
   let sg := d.s.sigs.map (fun x => s!"{x.1}:{showSig x.2.2}")
   let alive := match d.s.pc with | .dead _ => 0 | _ => 1
-  s!"sigs=[{joinWith "," sg}] dls={d.s.dls.length} alive={alive}"
+  -- downloaders registered for a block other than the one being requested now
+  let stale := match d.s.pc with
+    | .loop r _ => (d.s.dls.filter (fun (x : Dl) => x.hash != r.hash)).length
+    | .initial r => (d.s.dls.filter (fun (x : Dl) => x.hash != r.hash)).length
+    | _ => d.s.dls.length
+  s!"sigs=[{joinWith "," sg}] dls={d.s.dls.length} stale={stale} alive={alive}"
 
 def call (d : DState) (l : MLabel) (note : String := "") : DState × String :=
   match step d.s l with
@@ -89,6 +94,11 @@ def stepLine (d : DState) (op : String) : DState × String :=
       let cur := match d.s.pc with | .loop q _ => q.id == r | _ => false
       if cur then call d (.abortEnv r) else (d, obsOf d ++ " ign=1")
     | none => (d, "bad-op")
+  | "slow" :: rest =>
+    -- how long a peer takes to answer CancelBlockRequest is not visible at rest: no model step
+    match kvNat rest "d" with
+    | some i => if i < d.s.nextDl then (d, obsOf d) else (d, obsOf d ++ " ign=1")
+    | none => (d, obsOf d)
   | "intr" :: _ => call d .interrupt
   | "deliver" :: rest =>
     match kvNat rest "d" with
